@@ -482,7 +482,8 @@ theorem collect_wf (arrivals : List ParsedData) (h : ∀ d ∈ arrivals, DataWf 
 mutual
   theorem checkType_no64 (c : Str) (r : Renames) (i : List ImportedType) : ∀ t : RustType,
       no64 (checkType c r i t) = no64 t
-    | .generic id ps => by simp only [checkType, no64]; exact checkTypes_no64 c r i ps
+    | .generic id ps => by
+      simp only [checkType]; split <;> (simp only [no64]; exact checkTypes_no64 c r i ps)
     | .vec t => by simp only [checkType, no64]; exact checkType_no64 c r i t
     | .array t n => by simp only [checkType, no64]; exact checkType_no64 c r i t
     | .slice t => by simp only [checkType, no64]; exact checkType_no64 c r i t
